@@ -340,7 +340,11 @@ def main():
                UnsetTagged=False),
           dict(base, MaxObjs=2, KindSet={'config', 'list', 'tuple'}, TagChoices={0, 1, 5}, UnsetTagged=True)]
   if not quick:
-    runs = [dict(base, MaxObjs=3, NFns=2, KindSet={'config', 'partial', 'list', 'dict', 'tuple'},
+    # (sized with TLC alone: three objects of five kinds with three tag sets and two callables are 4 M heaps;
+    # every heap is emitted under all sub-fixture subsets x 5 thresholds x history x 2 generators)
+    runs = [dict(base, MaxObjs=3, KindSet={'config', 'partial', 'list', 'dict', 'tuple'}, TagChoices={0},
+                 UnsetTagged=False),
+            dict(base, MaxObjs=2, NFns=2, KindSet={'config', 'partial', 'list', 'dict', 'tuple'},
                  TagChoices={0, 1, 5}, UnsetTagged=True)]
   with common.scratch() as wd:
     recs = []
